@@ -83,6 +83,15 @@ claim("C06",
       "Not decided: the QR / Data Matrix / Aztec bit-stream parsers and decoders, the 1-D row decoders, the detectors, the binarisers, the multi reader.",
       "external xerrors/fmt constructors assumed non-panicking; termination only where decreases clauses are given.")
 
-for p in ["C01","C02","C03","C04","C08","C09","C15","C17","C18"]:
+claim("C18",
+      "Frame proof of the mechanism the property names (no schedule exploration): every store, map update and append/copy destination in every function reachable (class-hierarchy call graph) "
+      "from any exported Decode*/Encode*/DecodeRow method is an obligation; it is discharged when the written object cannot be reachable from a package-level variable "
+      "(whole-module global-reachability analysis through fields, element kinds, locals, parameters and results). Package-level state is therefore written by package initialisers only, "
+      "so calls on private reader/writer instances share only read-only tables: no data race on library state and results independent of other goroutines.",
+      "decided by govc's frame/effect checker (not by SMT): flow-insensitive, field- and element-kind based; zero-length package-level slice literals carry no storage; "
+      "external packages assumed not to write module state; nothing about actual schedules or -race runs is claimed.",
+      technique="contract-style frame (modifies) obligations discharged by a whole-module effect/reachability checker over go/ssa")
+
+for p in ["C01","C02","C03","C04","C08","C09","C15","C17"]:
     na(p, NOTYET)
 na("C11", "The library has no Aztec writer: 'conforming symbol' would have to be a hand-written restatement of ISO/IEC 24778 (a model, not the code), and the image-to-bits path is a float-geometry detector; no contract on one call of the real code expresses the property. The Aztec decoder's totality is covered under C06.")
